@@ -252,7 +252,7 @@ func TestC09Truthiness(t *testing.T) {
 // TestC09Loops enumerates loop counters over every length 0..14 for lists, strings and
 // ranges, alone and around an inner loop.
 func TestC09Loops(t *testing.T) {
-	r := NewRec(t, "C09", "exhaustive: all seven loop counters + value + key at every position of lists, strings (ASCII and multi-byte) and ranges of every length 0..14, for-else on empty, ranges over a grid of start/end/step in [-4,4] (step != 0), the outer counters re-read after an inner loop, nested loops over typed Go slices; non-trivial = length >= 2 or empty-with-else")
+	r := NewRec(t, "C09", "exhaustive: all seven loop counters + value + key at every position of lists, strings (ASCII and multi-byte) and ranges of every length 0..14, for-else on empty, ranges over a grid of start/end/step in [-4,4] (step != 0), the outer counters re-read after an inner loop, nested loops over typed Go slices, a loop re-entered through a recursive macro call from its own body; non-trivial = length >= 2 or empty-with-else")
 	defer r.Flush()
 	r.SetExhaustive()
 	counters := func(sep string) *S {
@@ -310,6 +310,17 @@ func TestC09Loops(t *testing.T) {
 			in2 := &S{K: "for", Name: "w", E: Var(innerSeq), Body: []*S{Print(Var("w"))}}
 			out2 := &S{K: "for", Name: "v", E: Var("xs"), Body: []*S{Print(Var("v")), Text("<"), in2, Text(">"), Print(Var("v")), counters("."), Text(";")}}
 			run(fmt.Sprint("nested-typed", n, innerSeq), n >= 1, ProgCase{tctx, []*S{out2}})
+		}
+	}
+	// the same loop entered again while it is running: a macro whose loop body calls the macro
+	// (run-time nesting of one for tag); the counters of the outer execution are read after the
+	// inner one returned
+	for n := int64(1); n <= 4; n++ {
+		for _, form := range []string{"local", "self"} {
+			call := &E{K: "mcall", S: "tree", M: form, A: []*E{Bin("-", Var("n"), Int(1))}}
+			loop := &S{K: "for", Name: "i", E: Call("range", Int(1), Var("n")), Body: []*S{Text("["), counters(","), Print(Var("i")), Text("<"), Print(call), Text(">"), counters(","), Print(Var("i")), Text("]")}}
+			tree := &S{K: "macro", Name: "tree", Params: []Param{{Name: "n"}}, Body: []*S{{K: "if", Conds: []*E{Bin(">", Var("n"), Int(0))}, Bodies: [][]*S{{loop}}}}}
+			run(fmt.Sprint("recursive-loop", n, form), true, ProgCase{Ctx{}, []*S{tree, Print(&E{K: "mcall", S: "tree", M: "local", A: []*E{Int(n)}})}})
 		}
 	}
 	for a := int64(-4); a <= 4; a++ {
